@@ -246,6 +246,18 @@ def mk_state(kind, N, dm=False):
     return ket2dm(psi) if dm else psi
 
 
+def needed_lists(inp, which):
+    out = set()
+    for c in inp["calls"]:
+        if c.get("circ") is None:
+            continue
+        if which == "gates" and (c["op"] == "instr" or (c["op"] == "schedule" and c.get("what") == "gates") or (c["op"] == "compile" and c.get("as") == "gates")):
+            out.add(c["circ"])
+        if which == "instrs" and c["op"] == "schedule" and c.get("what") == "instrs":
+            out.add(c["circ"])
+    return sorted(out)
+
+
 class World:
     """The shared objects of one history."""
 
@@ -260,6 +272,11 @@ class World:
         self.comps = {}
         self.scheds = {}
         self.noise_objs = {}
+        if circs is None:
+            for ci in needed_lists(inp, "gates"):
+                self.gate_list(ci)
+            for ci in needed_lists(inp, "instrs"):
+                self.instr_list(ci)
 
     # caller data = everything the caller passes in as circuit / gate / cbits argument
     def roots(self):
@@ -423,7 +440,8 @@ def do_call(W, call):
     if op == "compile":
         comp = W.comp(call["comp"])
         arg = qc if call.get("as", "circ") == "circ" else W.gate_list(call["circ"])
-        return comp.compile(arg, schedule_mode=call.get("sm"), args=copy.deepcopy(call.get("args")))
+        res = comp.compile(arg, schedule_mode=call.get("sm"), args=copy.deepcopy(call.get("args")))
+        return [res, comp.global_phase]
     if op == "load":
         proc = W.proc(call["proc"])
         kw = {}
@@ -486,15 +504,18 @@ def safe_call(W, call):
         return False, "%s: %s" % (type(e).__name__, str(e)[:80])
 
 
-def fresh_replay(inp, W, hist_so_far, call):
-    """The same call on freshly constructed service objects, with caller data equal to the CURRENT contents
-    of the shared caller objects (argument mutation is reported separately).  Processor queries need the
-    program the processor holds: the last load on that processor is replayed first (with a fresh compiler)."""
-    W2 = World(inp, circs=copy.deepcopy(W.circs), cbits=copy.deepcopy(W.cbits))
-    for k, v in W.gate_lists.items():
-        W2.gate_lists[k] = copy.deepcopy(v)
-    for k, v in W.instr_lists.items():
-        W2.instr_lists[k] = copy.deepcopy(v)
+def caller_copy(W):
+    return (copy.deepcopy(W.circs), copy.deepcopy(W.cbits), copy.deepcopy(W.gate_lists), copy.deepcopy(W.instr_lists))
+
+
+def fresh_replay(inp, saved, hist_so_far, call):
+    """The same call on freshly constructed service objects, with caller data equal to the contents the shared
+    caller objects had just BEFORE the call (argument mutation is reported separately).  Processor queries need
+    the program the processor holds: the last load on that processor is replayed first (with a fresh compiler)."""
+    circs, cbits, gls, ils = saved
+    W2 = World(inp, circs=circs, cbits=cbits)
+    W2.gate_lists.update(gls)
+    W2.instr_lists.update(ils)
     if call["op"] in PROC_QUERIES:
         last = None
         for c in hist_so_far:
@@ -513,22 +534,18 @@ def run_history(inp, repeat=True, fresh=True):
     obs = []
     fails = []
     kept = []       # (call index, result, ids)
+    dirty = set()   # caller roots changed so far in this history
     prev = None
     done = []
     for ci, call in enumerate(inp["calls"]):
         call = dict(call)
-        # make lazily created argument objects exist before the snapshot
-        if call["op"] in ("schedule", "instr", "compile") and call.get("circ") is not None:
-            if call.get("what") == "gates" or call["op"] == "instr" or call.get("as") == "gates":
-                W.gate_list(call["circ"])
-            if call.get("what") == "instrs":
-                W.instr_list(call["circ"])
         if call.get("proc") is not None:
             W.proc(call["proc"])
         roots = W.roots()
         before = {k: dump(v) for k, v in roots.items()}
         svc_before = service_snapshots(W)
         root_ids = {k: mutable_ids(v) for k, v in roots.items()}
+        saved = caller_copy(W) if fresh else None
         ok, res = safe_call(W, call)
         after = {k: dump(v) for k, v in roots.items()}
         svc_after = service_snapshots(W)
@@ -538,6 +555,8 @@ def run_history(inp, repeat=True, fresh=True):
         what_call = {k: v for k, v in call.items() if not k.startswith("_")}
         for k in mutated:
             fails.append(dict(kind="arg-mutated", call_index=ci, call=what_call, root=k, before=before[k], after=after[k]))
+        dirty_before = sorted(dirty)
+        dirty.update(mutated)
         if call["op"] in PROC_QUERIES:
             for k in svc_before:
                 if svc_before[k] != svc_after.get(k):
@@ -563,7 +582,7 @@ def run_history(inp, repeat=True, fresh=True):
             kept.append((ci, res, rids))
             c1 = canon(res)
             if fresh:
-                ok2, res2 = fresh_replay(inp, W, done, what_call)
+                ok2, res2 = fresh_replay(inp, saved, done, what_call)
                 o["fresh_equal"] = bool(ok2 and canon(res2) == c1)
                 if not o["fresh_equal"]:
                     fails.append(dict(kind="used-differs-from-fresh", call_index=ci, call=what_call,
@@ -572,7 +591,7 @@ def run_history(inp, repeat=True, fresh=True):
                 o["repeat_equal"] = bool(prev[1] == c1)
                 if not o["repeat_equal"]:
                     fails.append(dict(kind="not-repeatable", call_index=ci, call=what_call, first=_short(prev[1]),
-                                      second=_short(c1)))
+                                      second=_short(c1), dirty_roots=dirty_before))
             prev = (what_call, c1)
         else:
             o["error"] = res
@@ -585,3 +604,717 @@ def run_history(inp, repeat=True, fresh=True):
 def _short(x, n=400):
     s = json.dumps(x, default=str)
     return s if len(s) <= n else s[:n] + "..."
+
+
+# ------------------------------------------------------------------------------------------------------
+# model side: encoding of the world / history for Model/Heap.v
+# ------------------------------------------------------------------------------------------------------
+SWAP_LIKE = ("SWAP", "ISWAP", "SQRTISWAP", "SQRTSWAP", "BERKELEY", "SWAPalpha")
+
+
+class HeapBuilder:
+    def __init__(self):
+        self.objs = []
+
+    def alloc(self, fields):
+        self.objs.append(fields)
+        return "(Ref %d)" % (len(self.objs) - 1)
+
+    @staticmethod
+    def tok(n):
+        return "(Tok %d)" % n
+
+    def ints(self, lst):
+        return self.alloc([self.tok(int(x)) for x in lst])
+
+    def gate(self, g):
+        T = self.tok
+        if "M" in g:
+            t = self.ints([g["M"]])
+            return self.alloc([T(0), t, T(0), T(0), T(0), T(0 if g.get("store") is None else g["store"] + 1)])
+        t = T(0) if g.get("t") is None else self.ints(g["t"])
+        c = T(0) if g.get("c") is None else self.ints(g["c"])
+        a = g.get("a")
+        av = self.alloc([T(3), T(4)][:len(a)] + [T(5)] * max(0, len(a) - 2)) if isinstance(a, list) else T(0 if a is None else 6)
+        cc = T(0) if g.get("cc") is None else self.ints(g["cc"])
+        return self.alloc([T(1), t, c, av, cc, T(0)])
+
+    def circuit(self, c):
+        gl = self.alloc([self.gate(g) for g in c["gates"]])
+        n = c["N"] + c.get("ncb", 0)
+        ins = self.alloc([self.tok(0)] * n)
+        outs = self.alloc([self.tok(0)] * n)
+        return self.alloc([gl, self.tok(c["N"]), self.tok(c.get("ncb", 0)), ins, outs])
+
+    def coq(self):
+        return "[" + "; ".join("[" + "; ".join(o) + "]" for o in self.objs) + "]"
+
+
+def chain_modes(circ, setup):
+    """How to_chain_structure carries each gate into its output (read off chain.py): two-qubit gates it routes are
+    rebuilt from fresh literals (0); with the circular layout a CNOT/CSIGN whose ends are the two ends of the register is
+    re-added with the SAME targets / controls lists (2); every other gate object is appended as it is (1)."""
+    N = circ["N"]
+    out = []
+    for g in circ["gates"]:
+        name = g.get("name")
+        if name in ("CNOT", "CSIGN"):
+            s, e = sorted([g["t"][0], g["c"][0]])
+            if setup == "circular" and (e - s) > N // 2 and (e - s) == N - 1:
+                out.append(2)
+            else:
+                out.append(0)
+        elif name in SWAP_LIKE:
+            out.append(0)
+        else:
+            out.append(1)
+    return out
+
+
+ARGS_MENU = [None, {"shape": "hann", "num_samples": 8}, {"shape": "hamming", "num_samples": 6}]
+STATE_IDS = {"gen": 1, "plus": 2}
+
+
+def state_id(call):
+    k = call.get("state", "gen")
+    return (STATE_IDS[k] if k in STATE_IDS else 3 + int(k)) * 2 + (1 if call.get("dmstate") else 0)
+
+
+def compiled_phase(inp, call):
+    """value oracle for the model: does a FRESH compiler record a non-zero global phase for this circuit"""
+    try:
+        comp = mk_comp(inp["comps"][call["comp"]])
+        comp.compile(mk_circuit(inp["circs"][call["circ"]]))
+        return 1 if abs(comp.global_phase) > 1e-12 else 0
+    except Exception:
+        return 0
+
+
+def transpiled_phase(inp, call):
+    """value oracle for the model: does a FRESH processor (and compiler) record a non-zero global phase"""
+    try:
+        proc = mk_proc(dict(inp["procs"][call["proc"]], noise=[]))
+        kw = {}
+        if call.get("comp") is not None:
+            kw["compiler"] = mk_comp(inp["comps"][call["comp"]])
+        proc.load_circuit(mk_circuit(inp["circs"][call["circ"]]), **kw)
+        gp = kw["compiler"].global_phase if kw else getattr(proc, "global_phase", 0.0)
+        return 1 if abs(gp) > 1e-12 else 0
+    except Exception:
+        return 0
+
+
+def encode(inp, oks):
+    """-> (coq text of heap, roots, sims, comps, procs, calls, root names)"""
+    hb = HeapBuilder()
+    names, roots = [], []
+    circ_ref = []
+    for i, c in enumerate(inp["circs"]):
+        r = hb.circuit(c)
+        circ_ref.append(r)
+        names.append("circ%d" % i)
+        roots.append(r)
+    cb_ref = []
+    for i, b in enumerate(inp["cbits"]):
+        r = hb.ints(b)
+        cb_ref.append(r)
+        names.append("cbits%d" % i)
+        roots.append(r)
+    gl_ref, gl_gates, il_ref = {}, {}, {}
+    for ci in needed_lists(inp, "gates"):
+        gs = [hb.gate(g) for g in inp["circs"][ci]["gates"]]
+        gl_gates[ci] = gs
+        gl_ref[ci] = hb.alloc(gs)
+        names.append("gatelist%d" % ci)
+        roots.append(gl_ref[ci])
+    for ci in needed_lists(inp, "instrs"):
+        ins = [hb.alloc([hb.gate(g), hb.tok(1), hb.tok(0)]) for g in inp["circs"][ci]["gates"]]
+        il_ref[ci] = hb.alloc(ins)
+        names.append("instrlist%d" % ci)
+        roots.append(il_ref[ci])
+    sims = ["mkSim %s %s (Tok 0) 0" % (circ_ref[s["circ"]], cbool(bool(s.get("dm")))) for s in inp.get("sims", [])]
+    comps = ["mkComp 0 0 0 0" for _ in inp.get("comps", [])]
+    procs = ["mkProc [] 0 %d %s [] 0" % (len(p.get("noise", [])), cbool(p.get("t1") is not None or p.get("t2") is not None))
+             for p in inp.get("procs", [])]
+    calls = []
+    for call, ok in zip(inp["calls"], oks):
+        op = call["op"]
+        if not ok:
+            calls.append("CRaise")
+            continue
+        qc = circ_ref[call["circ"]] if call.get("circ") is not None else None
+        cb = cb_ref[call["cbits"]] if call.get("cbits") is not None else "(Tok 0)"
+        mr = clist([str(int(x)) for x in call["mr"]]) if call.get("mr") is not None else "[]"
+        if op == "sim_run":
+            calls.append("CSimRun %d %s %d %s" % (call["sim"], cb, state_id(call), mr))
+        elif op == "sim_stats":
+            calls.append("CSimStats %d %s %d" % (call["sim"], cb, state_id(call)))
+        elif op == "qc_run":
+            calls.append("CQcRun %s %s %s %d %s" % (qc, cb, cbool(bool(call.get("dmstate"))), state_id(call), mr))
+        elif op == "qc_stats":
+            calls.append("CQcStats %s %s %s %d" % (qc, cb, cbool(bool(call.get("dmstate"))), state_id(call)))
+        elif op == "resolve":
+            calls.append("CResolve %s" % qc)
+        elif op == "adjacent":
+            calls.append("CAdjacent %s" % qc)
+        elif op == "chain":
+            calls.append("CChain %s %s" % (qc, clist([str(m) for m in chain_modes(inp["circs"][call["circ"]], call.get("setup", "linear"))])))
+        elif op == "reverse":
+            calls.append("CReverse %s" % qc)
+        elif op == "add_circuit":
+            calls.append("CAddCircuit %s" % qc)
+        elif op in ("propagators", "unitary", "qasm", "draw"):
+            calls.append("CReadOnly %s %d" % (qc, ["propagators", "unitary", "qasm", "draw"].index(op) + 1))
+        elif op == "schedule":
+            what = call.get("what", "circ")
+            if what == "circ":
+                calls.append("CSchedule %s true" % qc)
+            elif what == "gates":
+                calls.append("CSchedule %s false" % gl_ref[call["circ"]])
+            else:
+                calls.append("CSchedule %s false" % il_ref[call["circ"]])
+        elif op == "instr":
+            gs = gl_gates[call["circ"]]
+            calls.append("CInstr %s" % gs[call.get("k", 0) % len(gs)] if gs else "CRaise")
+        elif op == "compile":
+            a = call.get("args")
+            aid = 0 if a is None else 1 + ARGS_MENU.index(a)
+            if call.get("as", "circ") == "circ":
+                calls.append("CCompile %d %s true %d %d" % (call["comp"], qc, aid, compiled_phase(inp, call)))
+            else:
+                calls.append("CCompile %d %s false %d %d" % (call["comp"], gl_ref[call["circ"]], aid, compiled_phase(inp, call)))
+        elif op == "load":
+            p = inp["procs"][call["proc"]]
+            ko = "None" if call.get("comp") is None else "(Some %d)" % call["comp"]
+            if p["kind"] in ("linear", "circular"):
+                ch = "(Some %s)" % clist([str(m) for m in chain_modes(inp["circs"][call["circ"]], p["kind"])])
+            else:
+                ch = "None"
+            calls.append("CLoad %d %s %s %s %s %d" % (call["proc"], qc, ko, ch, cbool(p["kind"] in ("linear", "circular", "cqed")),
+                                                     transpiled_phase(inp, call)))
+        elif op == "qobjevo":
+            calls.append("CQobjevo %d %s" % (call["proc"], cbool(bool(call.get("noisy")))))
+        elif op == "noisy_pulses":
+            calls.append("CNoisyPulses %d %s" % (call["proc"], cbool(bool(call.get("dn")))))
+        elif op == "run_analytically":
+            calls.append("CRunAnalytic %d" % call["proc"])
+        elif op == "proc_pulses":
+            calls.append("CHeld %d" % call["proc"])
+        else:
+            raise ValueError(op)
+    return hb.coq(), roots, sims, comps, procs, calls, names
+
+
+def coq_case(inp, oks):
+    heap, roots, sims, comps, procs, calls, names = encode(inp, oks)
+    w = "(mkWorld %s %s %s %s)" % (heap, clist(["(%s)" % s for s in sims]), clist(["(%s)" % s for s in comps]), clist(["(%s)" % s for s in procs]))
+    return "Eval vm_compute in (observe_hist src_flags %s %s [] %s).\n" % (clist(roots), w, clist(["(%s)" % c if " " in c else c for c in calls])), names
+
+
+def run_model_many(tag, items, chunk=60):
+    """items: list of (inp, oks) -> list of per-call model observations (or None)"""
+    files = []
+    meta = []
+    for k in range(0, len(items), chunk):
+        body = "From Coq Require Import List.\nImport ListNotations.\nFrom QV Require Import Model.Heap Gen.Purity.\n"
+        ns = []
+        for inp, oks in items[k:k + chunk]:
+            txt, names = coq_case(inp, oks)
+            body += txt
+            ns.append(names)
+        files.append(("C16_%s_%d" % (tag, k // chunk), body))
+        meta.append(ns)
+    outs = coq_eval_many(files)
+    res = []
+    for (name, _), ns in zip(files, meta):
+        vals = parse_evals(outs[name])
+        if len(vals) != len(ns):
+            raise Broken("coq-eval:" + name, "expected %d values, got %d" % (len(ns), len(vals)))
+        for v, names in zip(vals, ns):
+            per = []
+            for o in v:
+                if o is None:
+                    per.append(None)
+                    continue
+                o = o[1] if isinstance(o, tuple) and o[0] == "Some" else o
+                mut, al, aprev, fresh, held = o
+                per.append(dict(mutated=sorted(names[i] for i in mut), alias=sorted(names[i] for i in al),
+                                alias_prev=bool(aprev), fresh_equal=bool(fresh), held_changed=bool(held)))
+            res.append(per)
+    return res
+
+
+# ------------------------------------------------------------------------------------------------------
+# generators
+# ------------------------------------------------------------------------------------------------------
+def G(n, t=None, c=None, a=None, **k):
+    d = dict(name=n, t=t, c=c, a=a)
+    d.update(k)
+    return d
+
+
+ANG = [0.25, 0.5, 0.75, 1.25, -0.5, 1.0]
+
+
+def gen_unitary_circ(rng, N, n):
+    gs = []
+    for _ in range(n):
+        k = rng.choice(["SNOT", "X", "Y", "Z", "RX", "RY", "RZ", "CNOT", "CNOT", "CSIGN", "ISWAP", "SWAP", "SQRTISWAP", "S", "T"]
+                       + (["TOFFOLI"] if N >= 3 else []))
+        q = rng.sample(range(N), min(N, 3))
+        if k in ("RX", "RY", "RZ"):
+            gs.append(G(k, [q[0]], a=rng.choice(ANG)))
+        elif k in ("CNOT", "CSIGN"):
+            gs.append(G(k, [q[0]], [q[1]]))
+        elif k in ("ISWAP", "SWAP", "SQRTISWAP"):
+            gs.append(G(k, [q[0], q[1]]))
+        elif k == "TOFFOLI":
+            gs.append(G(k, [q[0]], [q[1], q[2]]))
+        else:
+            gs.append(G(k, [q[0]]))
+    return dict(N=N, ncb=0, gates=gs, kind="unitary")
+
+
+def gen_meas_circ(rng, N, n, ncb):
+    gs = []
+    for _ in range(n):
+        r = rng.random()
+        q = rng.sample(range(N), 2)
+        if r < 0.35:
+            gs.append({"M": q[0], "store": rng.choice(list(range(ncb)) + [None])})
+        elif r < 0.55:
+            cc = rng.sample(range(ncb), rng.choice([1, min(2, ncb)]))
+            gs.append(G(rng.choice(["X", "Z", "SNOT"]), [q[0]], cc=cc, ccv=rng.choice([None, 0, 1])))
+        elif r < 0.8:
+            gs.append(G(rng.choice(["SNOT", "X", "RX"]), [q[0]], a=None) if rng.random() < 0.6 else G("RY", [q[0]], a=rng.choice(ANG)))
+            if gs[-1]["name"] == "RX":
+                gs[-1]["a"] = rng.choice(ANG)
+        else:
+            gs.append(G("CNOT", [q[0]], [q[1]]))
+    if not any("M" in g for g in gs):
+        gs.append({"M": 0, "store": 0})
+    return dict(N=N, ncb=ncb, gates=gs, kind="meas")
+
+
+def gen_native_circ(rng, N, n):
+    gs = []
+    for _ in range(n):
+        k = rng.choice(["RX", "RZ", "ISWAP", "SQRTISWAP", "GLOBALPHASE", "RX", "RZ"])
+        if k in ("RX", "RZ"):
+            gs.append(G(k, [rng.randrange(N)], a=rng.choice(ANG)))
+        elif k == "GLOBALPHASE":
+            gs.append(G(k, a=rng.choice([0.25, 0.5])))
+        else:
+            i = rng.randrange(N - 1)
+            gs.append(G(k, rng.choice([[i, i + 1], [i + 1, i]])))
+    return dict(N=N, ncb=0, gates=gs, kind="native")
+
+
+def gen_2q_circ(rng, N, n):
+    gs = []
+    for _ in range(n):
+        k = rng.choice(["CNOT", "CSIGN", "SWAP", "ISWAP", "SQRTSWAP", "BERKELEY"])
+        q = rng.sample(range(N), 2)
+        gs.append(G(k, [q[0]], [q[1]]) if k in ("CNOT", "CSIGN") else G(k, [q[0], q[1]]))
+    return dict(N=N, ncb=0, gates=gs, kind="2q")
+
+
+def gen_listarg_circ(rng, N, n):
+    gs = []
+    for _ in range(n):
+        k = rng.choice(["R", "QASMU", "CNOT", "RX", "SWAP"])
+        q = rng.sample(range(N), 2)
+        if k == "R":
+            gs.append(G("R", [q[0]], a=[rng.choice(ANG), rng.choice(ANG)]))
+        elif k == "QASMU":
+            gs.append(G("QASMU", [q[0]], a=[rng.choice(ANG), rng.choice(ANG), rng.choice(ANG)]))
+        elif k == "CNOT":
+            gs.append(G(k, [q[0]], [q[1]]))
+        elif k == "RX":
+            gs.append(G(k, [q[0]], a=rng.choice(ANG)))
+        else:
+            gs.append(G(k, [q[1], q[0]]))
+    if not any(isinstance(g.get("a"), list) for g in gs):
+        gs.append(G("R", [0], a=[0.25, 0.5]))
+    return dict(N=N, ncb=0, gates=gs, kind="listarg")
+
+
+CIRC_U, CIRC_M, CIRC_N, CIRC_2, CIRC_L = 0, 1, 2, 3, 4
+
+
+def gen_world(rng, procs_ok=True):
+    N = rng.choice([2, 3, 3])
+    ncb = 2
+    circs = [gen_unitary_circ(rng, N, rng.randint(1, 5)), gen_meas_circ(rng, N, rng.randint(2, 5), ncb),
+             gen_native_circ(rng, N, rng.randint(1, 5)), gen_2q_circ(rng, N, rng.randint(1, 3)),
+             gen_listarg_circ(rng, N, rng.randint(1, 3))]
+    cbits = [[rng.randint(0, 1) for _ in range(ncb)], [rng.randint(0, 1) for _ in range(ncb)], [1], []]
+    sims = [dict(circ=CIRC_M), dict(circ=CIRC_M, dm=True), dict(circ=CIRC_U)]
+    procs = [dict(kind="linear", N=N), dict(kind="circular", N=N, t1=50.0, t2=30.0), dict(kind="cqed", N=N),
+             dict(kind="linear", N=N, noise=[dict(kind="relax", t1=40.0, t2=20.0), dict(kind="amp")]),
+             dict(kind="sc", N=2)]
+    comps = [dict(kind="spinchain", N=N), dict(kind="cqed", N=N)]
+    return dict(circs=circs, cbits=cbits, sims=sims, procs=procs, comps=comps, calls=[])
+
+
+def gen_call(rng, inp, family):
+    r = rng.random
+    if family == "sim":
+        op = rng.choice(["sim_run", "sim_run", "sim_stats", "qc_run", "qc_stats"])
+        cb = rng.choice([None, 0, 0, 1, 1, 2, 3])
+        nm = sum(1 for g in inp["circs"][CIRC_M]["gates"] if "M" in g)
+        mr = [rng.randint(0, 1) for _ in range(nm)] if r() < 0.8 else None
+        st = rng.choice(["gen", "plus", 0, 1])
+        if op == "sim_run":
+            return dict(op=op, sim=rng.choice([0, 0, 1]), cbits=cb, mr=mr, state=st)
+        if op == "sim_stats":
+            return dict(op=op, sim=rng.choice([0, 0, 1]), cbits=cb, state=st)
+        if op == "qc_run":
+            return dict(op=op, circ=CIRC_M, cbits=cb, mr=mr, state=st, dmstate=r() < 0.25)
+        return dict(op=op, circ=CIRC_M, cbits=cb, state=st, dmstate=r() < 0.25)
+    if family == "pass":
+        op = rng.choice(["resolve", "resolve", "adjacent", "chain", "chain", "reverse", "reverse", "add_circuit", "add_circuit",
+                         "propagators", "unitary", "qasm", "draw", "sim_u"])
+        if op == "resolve":
+            return dict(op=op, circ=rng.choice([CIRC_U, CIRC_U, CIRC_2, CIRC_N]),
+                        basis=rng.choice([["CNOT", "RX", "RY", "RZ"], "ISWAP", "CSIGN", "SQRTSWAP", ["ISWAP", "RX", "RZ"], ["CSIGN", "RY", "RX"], ["SQRTISWAP", "RZ", "RX"]]))
+        if op == "adjacent":
+            return dict(op=op, circ=CIRC_2)
+        if op == "chain":
+            return dict(op=op, circ=rng.choice([CIRC_U, CIRC_2, CIRC_N, CIRC_L]), setup=rng.choice(["linear", "circular"]))
+        if op == "reverse":
+            return dict(op=op, circ=rng.choice([CIRC_U, CIRC_M, CIRC_L, CIRC_2]))
+        if op == "add_circuit":
+            return dict(op=op, circ=rng.choice([CIRC_U, CIRC_M, CIRC_L, CIRC_L]), start=rng.choice([0, 0, 1]))
+        if op == "propagators":
+            return dict(op=op, circ=rng.choice([CIRC_U, CIRC_M, CIRC_L]), expand=r() < 0.6)
+        if op == "unitary":
+            return dict(op=op, circ=rng.choice([CIRC_U, CIRC_2, CIRC_L]))
+        if op == "qasm":
+            return dict(op=op, circ=rng.choice([CIRC_U, CIRC_M, CIRC_2]))
+        if op == "draw":
+            return dict(op=op, circ=rng.choice([CIRC_U, CIRC_M, CIRC_2, CIRC_L]))
+        return dict(op="sim_run", sim=2, cbits=None, mr=None, state=rng.choice(["gen", "plus"]))
+    if family == "sched":
+        op = rng.choice(["schedule", "schedule", "schedule", "instr", "compile", "compile"])
+        if op == "schedule":
+            return dict(op=op, circ=rng.choice([CIRC_U, CIRC_2, CIRC_N]), what=rng.choice(["circ", "gates", "instrs", "instrs"]),
+                        method=rng.choice(["ASAP", "ALAP"]), gs=r() < 0.3)
+        if op == "instr":
+            return dict(op=op, circ=rng.choice([CIRC_U, CIRC_2, CIRC_L]), k=rng.randrange(5))
+        return dict(op="compile", comp=rng.choice([0, 0, 1]), circ=CIRC_N, sm=rng.choice([None, "ASAP", "ALAP"]),
+                    args=rng.choice([None, None, ARGS_MENU[1], ARGS_MENU[2]]), **{"as": rng.choice(["circ", "gates"])})
+    # processors
+    p = rng.choice(inp["_procs"])
+    kind = inp["procs"][p]["kind"]
+    op = rng.choice(["load", "load", "qobjevo", "qobjevo", "noisy_pulses", "run_analytically", "proc_pulses"])
+    if op == "load":
+        comp = None
+        if kind in ("linear",) and r() < 0.5:
+            comp = 0
+        if kind == "cqed" and r() < 0.5:
+            comp = 1
+        return dict(op=op, proc=p, circ=rng.choice([CIRC_U, CIRC_N, CIRC_2]), comp=comp, sm=rng.choice(["ASAP", "ASAP", "ALAP", None]))
+    if op == "qobjevo":
+        return dict(op=op, proc=p, noisy=r() < 0.6)
+    if op == "noisy_pulses":
+        return dict(op=op, proc=p, dn=r() < 0.6, drift=r() < 0.5)
+    if op == "run_analytically":
+        if kind == "sc":
+            return dict(op="proc_pulses", proc=p)
+        return dict(op=op, proc=p, state=rng.choice([None, 0, "plus"]))
+    return dict(op=op, proc=p)
+
+
+def gen_history(rng, maxlen=8, family=None):
+    inp = gen_world(rng)
+    family = family or rng.choice(["sim", "sim", "pass", "pass", "sched", "proc", "proc", "mixed"])
+    inp["_procs"] = [rng.choice([0, 1, 2, 3, 3, 4])] if family != "mixed" else [rng.choice([0, 3])]
+    n = rng.randint(2, maxlen)
+    calls = []
+    if family in ("proc",):
+        calls.append(dict(op="load", proc=inp["_procs"][0], circ=rng.choice([CIRC_U, CIRC_N]),
+                          comp=(0 if inp["procs"][inp["_procs"][0]]["kind"] == "linear" and rng.random() < 0.5 else None), sm="ASAP"))
+    while len(calls) < n:
+        fam = family if family != "mixed" else rng.choice(["sim", "pass", "sched", "proc"])
+        c = gen_call(rng, inp, fam)
+        calls.append(c)
+        if rng.random() < 0.4 and len(calls) < n:
+            calls.append(dict(c))
+    inp["calls"] = calls[:maxlen]
+    inp["family"] = family
+    del inp["_procs"]
+    return inp
+
+
+def key_of(inp):
+    return json.dumps([inp["circs"], inp["cbits"], inp["calls"]], sort_keys=True)
+
+
+def load_corpus():
+    d = os.path.join(VERIF, "corpus", "C16")
+    out = []
+    if os.path.isdir(d):
+        for f in sorted(os.listdir(d)):
+            if f.endswith(".json"):
+                rec = json.load(open(os.path.join(d, f)))
+                out.append(rec.get("input", rec))
+    return out
+
+
+# ------------------------------------------------------------------------------------------------------
+# generate / correspond
+# ------------------------------------------------------------------------------------------------------
+def generate(ctx):
+    sys_path = os.path.join(VERIF, "tools", "translate")
+    import importlib.util
+    spec = importlib.util.spec_from_file_location("purity_tr", os.path.join(sys_path, "purity_tr.py"))
+    mod = importlib.util.module_from_spec(spec)
+    spec.loader.exec_module(mod)
+    F = mod.generate()
+    ctx.notes.append("flags extracted from the sources: " + ", ".join("%s=%d" % (k, F[k]) for k in mod.ORDER))
+    ctx.flags = F
+
+
+def _work(inp):
+    try:
+        obs, fails = run_history(inp)
+        return obs, fails, None
+    except Exception as e:  # harness problem, reported as such
+        import traceback
+        return None, None, traceback.format_exc()[-1500:]
+
+
+def run_many(inps):
+    import multiprocessing as mp
+    from common import NCPU
+    if len(inps) <= 2:
+        return [_work(i) for i in inps]
+    ctxm = mp.get_context("fork")
+    with ctxm.Pool(min(NCPU, 14)) as pool:
+        return pool.map(_work, inps, chunksize=2)
+
+
+WHAT = {
+    "arg-mutated": "an operation changed an object passed in by the caller",
+    "result-aliases-arg": "a returned result shares a mutable object with the caller's data",
+    "results-alias": "results of different calls share a mutable object",
+    "not-repeatable": "repeating the same call on the same objects returned a different result",
+    "used-differs-from-fresh": "a used simulator / compiler / processor behaves differently from a freshly constructed one",
+    "held-pulses-changed": "a query changed the control pulses a processor holds (as functions of time)",
+}
+
+
+def fail_record(inp, f):
+    return dict(input=dict(inp, focus=f.get("call_index")), observed=jsonable_fail(f), expected="pure, repeatable, unaliased",
+                what=WHAT[f["kind"]] + " [" + f["call"]["op"] + "]")
+
+
+def jsonable_fail(f):
+    out = {}
+    for k, v in f.items():
+        if k in ("before", "after"):
+            out[k] = _short(v, 300)
+        else:
+            out[k] = v
+    return out
+
+
+def compare(inp, obs, model, corr):
+    """model prediction vs observation, per call"""
+    n_dis = 0
+    for ci, (o, m) in enumerate(zip(obs, model)):
+        if m is None:
+            corr.disagree(inp, o, None, "model history stopped (error value) at call %d" % ci)
+            return
+        if not o["ok"]:
+            continue
+        cb_roots = set(k for k in m["mutated"] if k.startswith("cbits"))
+        bad = []
+        if not set(o["mutated"]) <= set(m["mutated"]):
+            bad.append("mutated")
+        if not (set(m["mutated"]) - set(o["mutated"])) <= cb_roots:
+            bad.append("mutated(model-only)")
+        if sorted(o["alias"]) != sorted(m["alias"]):
+            bad.append("alias")
+        if bool(o["alias_prev"]) != m["alias_prev"]:
+            bad.append("alias_prev")
+        if m["fresh_equal"] and o["fresh_equal"] is False:
+            bad.append("fresh_equal")
+        if bool(o["held_changed"]) != m["held_changed"]:
+            bad.append("held")
+        if not m["fresh_equal"] and o["fresh_equal"]:
+            corr.tally("model-may-differ-but-equal")
+        if bad:
+            corr.disagree(dict(inp, focus=ci), dict(o, call=inp["calls"][ci]), m,
+                          "Heap model vs observed sharing/mutation (%s) [%s]" % (",".join(bad), inp["calls"][ci]["op"]))
+            return
+
+
+def nontrivial(inp, obs):
+    """a history is non-trivial when at least two successful calls touch the same shared object"""
+    seen = {}
+    for c, o in zip(inp["calls"], obs):
+        if not o["ok"]:
+            continue
+        for k in ("circ", "sim", "proc", "comp", "cbits"):
+            if c.get(k) is not None:
+                seen[(k, c[k])] = seen.get((k, c[k]), 0) + 1
+    return any(v >= 2 for v in seen.values())
+
+
+TARGETED = None
+
+
+def targeted_histories():
+    """small fixed histories that exercise every flag-dependent branch of the model"""
+    cu = dict(N=3, ncb=0, kind="unitary", gates=[G("SNOT", [0]), G("CNOT", [2], [0]), G("RZ", [1], a=0.25), G("X", [1]), G("ISWAP", [2, 0])])
+    cm = dict(N=3, ncb=2, kind="meas", gates=[G("SNOT", [0]), {"M": 0, "store": 0}, G("X", [1], cc=[0]), {"M": 1, "store": 1}, G("RX", [2], a=0.5)])
+    cn = dict(N=3, ncb=0, kind="native", gates=[G("RX", [0], a=0.5), G("GLOBALPHASE", a=0.25), G("RZ", [2], a=0.25), G("ISWAP", [2, 1]), G("SQRTISWAP", [0, 1])])
+    c2 = dict(N=3, ncb=0, kind="2q", gates=[G("CNOT", [2], [0]), G("ISWAP", [2, 0]), G("SWAP", [2, 0])])
+    cl = dict(N=3, ncb=0, kind="listarg", gates=[G("R", [1], a=[0.25, 0.5]), G("CNOT", [1], [0]), G("SWAP", [1, 0])])
+    base = dict(circs=[cu, cm, cn, c2, cl], cbits=[[0, 0], [1, 0], [1], []],
+                sims=[dict(circ=1), dict(circ=1, dm=True), dict(circ=0)],
+                procs=[dict(kind="linear", N=3), dict(kind="circular", N=3, t1=50.0, t2=30.0), dict(kind="cqed", N=3),
+                       dict(kind="linear", N=3, noise=[dict(kind="relax", t1=40.0, t2=20.0), dict(kind="amp")]), dict(kind="sc", N=2)],
+                comps=[dict(kind="spinchain", N=3), dict(kind="cqed", N=3)])
+
+    def H(fam, *calls):
+        d = dict(base)
+        d["calls"] = [dict(c) for c in calls]
+        d["family"] = fam
+        return d
+    A1, A2 = ARGS_MENU[1], ARGS_MENU[2]
+    return [
+        H("sim", dict(op="sim_run", sim=0, cbits=0, mr=[1, 1]), dict(op="sim_run", sim=0, cbits=0, mr=[1, 1]), dict(op="sim_run", sim=0, cbits=None, mr=[0, 1]),
+          dict(op="sim_run", sim=0, cbits=None, mr=[0, 1]), dict(op="sim_stats", sim=0, cbits=1), dict(op="sim_stats", sim=0), dict(op="sim_stats", sim=0), dict(op="sim_run", sim=0, cbits=2)),
+        H("sim", dict(op="qc_run", circ=1, cbits=0, mr=[1, 1]), dict(op="qc_stats", circ=1, cbits=1), dict(op="qc_stats", circ=1), dict(op="qc_run", circ=1, state="plus", dmstate=True),
+          dict(op="sim_stats", sim=1, cbits=1), dict(op="unitary", circ=0), dict(op="propagators", circ=0), dict(op="sim_run", sim=0, cbits=3, mr=[1, 0])),
+        H("pass", dict(op="resolve", circ=0, basis=["CNOT", "RX", "RY", "RZ"]), dict(op="resolve", circ=0, basis="ISWAP"), dict(op="resolve", circ=0, basis="ISWAP"), dict(op="adjacent", circ=3),
+          dict(op="chain", circ=0), dict(op="chain", circ=3, setup="circular"), dict(op="reverse", circ=0), dict(op="reverse", circ=1)),
+        H("pass", dict(op="add_circuit", circ=0, start=1), dict(op="add_circuit", circ=4), dict(op="add_circuit", circ=4), dict(op="draw", circ=1), dict(op="draw", circ=0),
+          dict(op="chain", circ=4, setup="circular"), dict(op="reverse", circ=4), dict(op="propagators", circ=4, expand=False)),
+        H("sched", dict(op="schedule", circ=0, what="circ"), dict(op="schedule", circ=0, what="gates", method="ALAP"), dict(op="schedule", circ=0, what="instrs"),
+          dict(op="schedule", circ=0, what="instrs", method="ALAP"), dict(op="schedule", circ=0, what="instrs", gs=True), dict(op="instr", circ=3, k=1), dict(op="instr", circ=3, k=1), dict(op="instr", circ=0, k=4)),
+        H("sched", dict(op="compile", comp=0, circ=2), dict(op="compile", comp=0, circ=2), dict(op="compile", comp=0, circ=2, sm="ASAP", args=A1), dict(op="compile", comp=0, circ=2, sm="ASAP"),
+          dict(op="compile", comp=1, circ=2, **{"as": "gates"}), dict(op="compile", comp=1, circ=2, **{"as": "gates"}), dict(op="compile", comp=1, circ=2, args=A2), dict(op="compile", comp=1, circ=2)),
+        H("proc", dict(op="load", proc=0, circ=0), dict(op="load", proc=0, circ=0), dict(op="run_analytically", proc=0), dict(op="qobjevo", proc=0), dict(op="proc_pulses", proc=0),
+          dict(op="qobjevo", proc=0, noisy=True), dict(op="run_analytically", proc=0), dict(op="load", proc=0, circ=2)),
+        H("proc", dict(op="load", proc=0, circ=0, comp=0), dict(op="load", proc=0, circ=0, comp=0), dict(op="run_analytically", proc=0), dict(op="load", proc=0, circ=2, comp=0),
+          dict(op="load", proc=2, circ=0, comp=1), dict(op="load", proc=2, circ=0, comp=1), dict(op="run_analytically", proc=2, state=0)),
+        H("proc", dict(op="load", proc=1, circ=0), dict(op="noisy_pulses", proc=1, dn=True, drift=True), dict(op="noisy_pulses", proc=1, dn=True, drift=True), dict(op="qobjevo", proc=1, noisy=True),
+          dict(op="qobjevo", proc=1, noisy=True), dict(op="proc_pulses", proc=1), dict(op="run_analytically", proc=1, state=0), dict(op="load", proc=1, circ=3)),
+        H("proc", dict(op="load", proc=3, circ=0), dict(op="noisy_pulses", proc=3, dn=True), dict(op="noisy_pulses", proc=3, dn=True), dict(op="qobjevo", proc=3, noisy=True),
+          dict(op="qobjevo", proc=3, noisy=True), dict(op="noisy_pulses", proc=3), dict(op="proc_pulses", proc=3), dict(op="qobjevo", proc=3)),
+        H("proc", dict(op="load", proc=4, circ=3), dict(op="qobjevo", proc=4, noisy=True), dict(op="qobjevo", proc=4, noisy=True), dict(op="proc_pulses", proc=4), dict(op="load", proc=4, circ=3)),
+    ]
+
+
+def correspond(ctx):
+    corr = Corr(rule="at least two successful calls of the history use the same shared circuit / cbits list / simulator / compiler / processor")
+    rng = ctx.rng
+    inps = []
+    for inp in load_corpus():
+        inps.append(("corpus", inp))
+    for inp in targeted_histories():
+        inps.append(("targeted", inp))
+    fams = ["sim"] * 3 + ["pass"] * 3 + ["sched"] * 2 + ["proc"] * 2 + ["mixed"] * 2
+    for i in range(ctx.n(180, 1500)):
+        inps.append(("random", gen_history(rng, 8, family=fams[i % len(fams)])))
+    reals = run_many([i for _, i in inps])
+    items = []
+    for (kind, inp), (obs, fails, err) in zip(inps, reals):
+        if err is not None:
+            raise Broken("correspondence-harness:C16", err)
+        items.append((inp, [o["ok"] for o in obs]))
+    models = run_model_many(ctx.tier, items)
+    n_calls = 0
+    for (kind, inp), (obs, fails, err), model in zip(inps, reals, models):
+        corr.tally(kind)
+        corr.tally("family=" + inp.get("family", "?"))
+        corr.tally("len=%d" % len(inp["calls"]))
+        for c, o in zip(inp["calls"], obs):
+            corr.tally("op=" + c["op"] + ("" if o["ok"] else " (rejected)"))
+            n_calls += 1
+        corr.count(key_of(inp), nontrivial=nontrivial(inp, obs), sample=dict(circs=inp["circs"][:1], calls=inp["calls"]))
+        compare(inp, obs, model, corr)
+        for f in fails:
+            fr = fail_record(inp, f)
+            corr.oracle_fail(fr["input"], fr["observed"], fr["expected"], fr["what"])
+    corr.extra["calls_executed"] = n_calls
+    return corr
+
+
+# ------------------------------------------------------------------------------------------------------
+# known findings / search / replay
+# ------------------------------------------------------------------------------------------------------
+RUN_OPS = ("sim_run", "sim_stats", "qc_run", "qc_stats")
+
+
+def classify(failure):
+    f = failure.get("observed") or {}
+    if not isinstance(f, dict):
+        return None
+    kind, call = f.get("kind"), f.get("call") or {}
+    if call.get("op") in RUN_OPS and call.get("cbits") is not None:
+        root = "cbits%d" % call["cbits"]
+        if kind in ("arg-mutated", "result-aliases-arg") and f.get("root") == root:
+            return "cbits-by-reference"
+        if kind == "not-repeatable" and root in (f.get("dirty_roots") or []):
+            return "cbits-by-reference"     # the first of the two calls changed the list the second one starts from
+        if kind == "results-alias" and f.get("via_roots") == [root] and (f.get("other_call") or {}).get("cbits") == call["cbits"] \
+                and f.get("shared") == ["list"]:
+            return "cbits-by-reference"
+    return None
+
+
+def replay(ctx, rec):
+    inp = rec["input"]
+    inp = {k: v for k, v in inp.items() if k != "focus"}
+    obs, fails = run_history(inp)
+    want = (rec.get("observed") or {}).get("kind") if isinstance(rec.get("observed"), dict) else None
+    if want:
+        return any(f["kind"] == want for f in fails)
+    return bool(fails)
+
+
+def search(ctx, broken):
+    out = []
+    cands = load_corpus() + targeted_histories()
+    rng = ctx.rng
+    cands += [gen_history(rng, 8) for _ in range(ctx.n(150, 600))]
+    for (obs, fails, err), inp in zip(run_many(cands), cands):
+        if err is not None:
+            continue
+        for f in fails:
+            out.append(fail_record(inp, f))
+        if len(out) >= 40:
+            break
+    return out
+
+
+TRUSTED = [
+    "Model/Heap.v is a hand-written object-granularity model of the sharing / mutation behaviour of the public operations "
+    "(values are abstract tokens; copy.deepcopy is a tree copy; allocation order is abstract); it is tied to the code by (a) the "
+    "fail-closed ast translator tools/translate/purity_tr.py, which re-extracts on every run the presence and position of each "
+    "defensive copy / reset (Gen/Purity.v: src_flags), and (b) exact comparison, per call of generated histories, of the predicted "
+    "and observed sets of mutated caller objects, aliased caller objects, aliasing with earlier results, held-pulse changes, and "
+    "one-sided comparison of 'behaves as on fresh service objects'",
+    "read-only operations (propagators, compute_unitary, QASM export, text drawing, run_analytically, get_full_tlist/coeffs) are "
+    "modelled as not writing anything: this is checked dynamically by the snapshots, not derived from the source",
+    "value-dependent facts handed to the model by the harness: which calls raised, forced measurement outcomes, whether the compiled "
+    "circuit records a non-zero global phase, and per gate how to_chain_structure carries it over (rebuilt / same object / same lists)",
+    "Qobj, QobjEvo, numbers, strings, tuples and functions are treated as immutable values; mutable = list, dict, set, ndarray, "
+    "instances with __dict__",
+    "Processor.run_state with a solver is not exercised: `qutip.Options` does not exist in the installed QuTiP 5.3.1 (AttributeError); "
+    "get_qobjevo / get_noisy_pulses / run_analytically / load_circuit / compile are used instead",
+]
+ASSUMES = [
+    "histories of at most 8 calls on 2-3 qubit circuits (the theorems are for every length and every heap)",
+    "pulses are compared as functions of time sampled at 17 interior points plus their noise elements, not as stored arrays "
+    "(get_qobjevo lengthening the coefficient arrays is not a change)",
+    "a noise object's t1/t2 given as a scalar or as a constant list are the same value (RelaxationNoise normalises them in place)",
+    "results of QubitCircuit / CircuitSimulator / Scheduler / GateCompiler / Processor calls must not share mutable objects with the "
+    "caller's circuits, gates, cbits lists, gate lists or instruction lists, nor with results of other calls; state held by the "
+    "service object itself (e.g. the pulses a processor keeps after load_circuit) may be exposed by its own results",
+]
